@@ -245,8 +245,11 @@ def remove_bonds_invalid_valancies(species):
         logger.warning(f"Atom {i} exceeds its maximal valence removing edges")
 
         # Get the atom indexes sorted by the closest to atom i
+        # Equal distances (to 1e-6 Å) are ordered by atom index, so which of
+        # several equally long bonds is removed does not depend on rounding
         closest_atoms = sorted(
-            neighbours, key=lambda k: species.distance(i, k)
+            neighbours,
+            key=lambda k: (round(float(species.distance(i, k)), 6), k),
         )
 
         # Delete all the bonds to atom(s) j that are above the maximal valance
